@@ -1,7 +1,7 @@
 from _common import COMMON_NOTE
 
 META = {'title': 'Input ports reflect exactly the controls held, for every event history',
- 'lean_modules': ['ZxVerif.Props.C17', 'ZxVerif.Props.C17X'],
+ 'lean_modules': ['ZxVerif.Props.C17', 'ZxVerif.Props.C17X', 'ZxVerif.Props.C17Sys'],
  'extract': ['Keys', 'Sinclair'],
  'modelled_code': ['rustzx-core/src/zx/keys.rs',
                    'rustzx-core/src/zx/joy/sinclair.rs',
